@@ -287,6 +287,9 @@ func vScenarioC01(rc *runCtx) {
 	o.kHash = []int64{0, 1024, 4096}[tp.Draw("c01.khash", 3)]
 	o.trigSplitLF = !cfg.srvWindows && cfg.srvTmux == "" && tp.Bool("c01.trigsplitlf", 100)
 	o.profile = vDrawProfile(tp, cfg.timeout)
+	// the destination of an upload as the user types it: relative to where trz is started (also with -f, whose
+	// background process must still mean the same directory)
+	o.relDst = cfg.upload && tp.Bool("c01.reldst", 200)
 	if cfg.upload && !cfg.fork && tp.Bool("c01.dragupload", 250) {
 		o.uploadVia = 1 + tp.Draw("c01.uploadvia", 2)
 		for _, p := range spec.paths {
